@@ -122,93 +122,177 @@ def _loop_conditions(fn: Fn, loop, call: ast.Call):
     return conds
 
 
+class _Param:
+
+    def __init__(self, name: str):
+        self.name = name
+
+
+class WrapperReader(GateReader):
+    """the three decorators evaluated as what they are - functions returning closures - around an opaque wrapped function with the signature (a, b, c):
+    inspect.signature / bind follow Python's binding rules, `_assert_expected_unit` calls are recorded instead of evaluated (K3 decides that function)"""
+
+    PARAMS = ["a", "b", "c"]
+
+    def __init__(self, module):
+        super().__init__(module, "quantity_decorator.py", depth_limit=10)
+        self.log: list = []
+        self.result = quantity("RESULT", Dim.of(mass=1, length=2, time=-2))
+
+    def global_value(self, n):
+        if isinstance(n, ast.Name) and n.id == "inspect":
+            return ("module", "inspect")
+        if isinstance(n, ast.Name) and n.id == "functools":
+            return ("module", "functools")
+        return super().global_value(n)
+
+    def hook_attr(self, base, attr, n):
+        if base == ("wrapped", ) and attr == "__name__":
+            return "FUNC"
+        if base == ("signature", ) and attr == "parameters":
+            return {p: _Param(p) for p in self.PARAMS}
+        if isinstance(base, _Param) and attr == "name":
+            return base.name
+        if isinstance(base, tuple) and base and base[0] == "bound" and attr == "arguments":
+            return dict(base[1])
+        if isinstance(base, tuple) and base and base[0] == "bound" and attr in ("args", "kwargs"):
+            return list(base[1].values()) if attr == "args" else {}
+        return super().hook_attr(base, attr, n)
+
+    def hook_method(self, base, attr, args, kwargs, n):
+        if base == ("module", "inspect") and attr == "signature" and len(args) == 1 and args[0] == ("wrapped", ):
+            return ("signature", )
+        if base == ("signature", ) and attr in ("bind", "bind_partial"):
+            if len(args) > len(self.PARAMS) or any(k not in self.PARAMS for k in kwargs) or any(k in self.PARAMS[:len(args)] for k in kwargs):
+                raise Raised("TypeError", getattr(n, "lineno", 0))
+            bound = dict(zip(self.PARAMS, args))
+            for p in self.PARAMS:  # signature order, as inspect keeps it
+                if p in kwargs:
+                    bound[p] = kwargs[p]
+            if attr == "bind" and len(bound) != len(self.PARAMS):
+                raise Raised("TypeError", getattr(n, "lineno", 0))
+            return ("bound", {p: bound[p] for p in self.PARAMS if p in bound})
+        if base == ("module", "functools") and attr == "wraps":
+            return ("identity-decorator", )
+        return super().hook_method(base, attr, args, kwargs, n)
+
+    def hook_call(self, n, env, fns):
+        name = (dotted(n.func) or "").split(".")[-1]
+        if name == "_assert_expected_unit" and isinstance(n.func, ast.Name):
+            args = [self.ev(a, env, fns) for a in n.args]
+            self.log.append(("check", args))
+            return None
+        if isinstance(n.func, ast.Name) and n.func.id in env and env[n.func.id] == ("wrapped", ):
+            args = []
+            for a in n.args:
+                if isinstance(a, ast.Starred):
+                    args += list(self.ev(a.value, env, fns))
+                else:
+                    args.append(self.ev(a, env, fns))
+            kw_ = {k.arg: self.ev(k.value, env, fns) for k in n.keywords if k.arg}
+            for k in n.keywords:
+                if k.arg is None:
+                    kw_.update(self.ev(k.value, env, fns))
+            self.log.append(("call", args, kw_))
+            return self.result
+        return super().hook_call(n, env, fns)
+
+
+def _wrap(R: "WrapperReader", decorator: str, dargs: list, dkwargs: dict):
+    maker = R.call(decorator, list(dargs), dict(dkwargs))
+    return R.apply_value(maker, [("wrapped", )], ast.parse("0").body[0], {})
+
+
 def _k1(run: Run, w: World) -> None:
-    run.rule("K1", "validate_input: the wrapped call is dominated by a loop over all signature parameters that checks each guarded parameter (value from bind(*args, **kwargs), name from the parameter)")
-    f = Fn(w, QD, "validate_input.validate_func.wrapper_validate")
-    # the call of the wrapped function: callee is the closure variable `func`, called with *args, **kwargs
-    wrapped = [(n, c) for n in f.cfg.stmt_nodes() for c in node_calls(n)
-               if isinstance(c.func, ast.Name) and c.func.id == "func" and any(isinstance(a, ast.Starred) for a in c.args)]
-    run.require(bool(wrapped), "validate_input wrapper no longer calls func(*args, **kwargs)")
-    loops = [n for n in f.cfg.stmt_nodes() if n.kind == "for"]
-    good_loops = []
-    for lp in loops:
-        sl = f.slice(lp, lp.ast.iter)
-        tgt = lp.ast.target
-        if not isinstance(tgt, ast.Name):
-            continue
-        full = "inspect.signature" in {f.callee(node_of(f.cfg, c) or lp, c) for c in sl.call_nodes} and "parameters" in sl.attr_names \
-            and not has_subscript(sl.exprs) and not (sl.calls - {"inspect.signature", ".values", ".items", "list", "tuple"} - {c for c in sl.calls if c.endswith("parameters.values")})
-        if not full:
-            continue
-        if any(isinstance(x, (ast.Break, ast.Return)) for s in lp.ast.body for x in ast.walk(s)):
-            continue
-        for n, c in f.calls(AEU):
-            if not any(t is lp for t, _ in n.lexical_tests) or len(c.args) < 3:
-                continue
-            conds = _loop_conditions(f, lp, c)
-            if conds is None:
-                continue
-            real = [(t, p) for t, p in conds if not isinstance(t, str)]
-            only_membership = len(real) == 1 and _is_membership(real[0][0], real[0][1], tgt.id, "decorator_kwargs") and len(conds) == 1
-            s0, s1, s2 = f.slice(n, c.args[0]), f.slice(n, c.args[1]), f.slice(n, c.args[2])
-            value_ok = {"args", "kwargs"} <= s0.params and ".bind" in {x if x.startswith(".") else "." + x.split(".")[-1] for x in s0.calls} \
-                and f"{tgt.id}.name" in s0.attrs and not numeric_consts(s0)
-            table_ok = "decorator_kwargs" in s1.free and f"{tgt.id}.name" in s1.attrs
-            name_ok = dotted(c.args[2]) == f"{tgt.id}.name"
-            if only_membership and value_ok and table_ok and name_ok and loop_passes_or_guard(f, lp, n):
-                good_loops.append(lp)
-    for n, c in wrapped:
-        run.ob("K1", f"wrapped-call@{norm(c, 40)}")
-        if not f.cfg.dominated_by(n, lambda x: x in good_loops):
-            run.violate("K1", f"{f.qual}:call-of-wrapped", f.mod, c,
-                        "the wrapped function can run without every guarded parameter having been checked: no dominating loop over all "
-                        "signature parameters that calls _assert_expected_unit(bound value, decorator_kwargs[name], name, ...) under exactly the "
-                        "condition `name in decorator_kwargs`")
-    run.sample({"function": f.qual, "wrapped_call": [f.line(c) for _, c in wrapped], "checking_loops": [f.line(l) for l in good_loops]})
-
-
-def loop_passes_or_guard(f: Fn, lp, check_node) -> bool:
-    # every iteration either reaches the check or leaves through the membership guard: since the only condition on the check
-    # is the membership test (verified by the caller), nothing more to demand here; kept as a hook for stricter variants
-    return True
+    """validate_input is EVALUATED: the decorator, applied to a function with parameters (a, b, c) and guards for a and b, is called positionally, by keyword and mixed"""
+    run.rule("K1", "validate_input: before the wrapped function runs, every guarded parameter - however it was passed - has been handed to _assert_expected_unit with its bound value, "
+             "its declaration and its name; unguarded parameters are not checked; the call and its result are unchanged")
+    m = run.src.need(QD)
+    DA, DB = Dim.of(length=1), Dim.of(time=1)
+    va, vb, vc = quantity("va", DA), quantity("vb", DB), quantity("vc", Dim.of(mass=1))
+    styles = {"positional": ([va, vb, vc], {}), "keyword": ([], {"c": vc, "b": vb, "a": va}), "mixed": ([va], {"c": vc, "b": vb})}
+    for label, (args, kwargs) in styles.items():
+        run.ob("K1", label)
+        R = WrapperReader(m.tree)
+        try:
+            wrapper = _wrap(R, "validate_input", [], {"a": DA, "b": DB})
+            got = R.apply_value(wrapper, list(args), ast.parse("0").body[0], {}, dict(kwargs))
+            problem = None
+        except Raised as r:
+            got, problem = None, f"raises {r.exc}"
+        if not problem:
+            calls = [e for e in R.log if e[0] == "call"]
+            checks_before = []
+            for e in R.log:
+                if e[0] == "call":
+                    break
+                checks_before.append(e[1])
+            want = {"a": (va, DA), "b": (vb, DB)}
+            seen = {}
+            for c_ in checks_before:
+                if len(c_) >= 4 and isinstance(c_[2], str):
+                    seen[c_[2]] = c_
+            if len(calls) != 1 or calls[0][1:] != (list(args), dict(kwargs)):
+                problem = f"calls the wrapped function {len(calls)} time(s) / not with the caller's own (*args, **kwargs)"
+            elif got is not R.result:
+                problem = "does not return the result of the wrapped function"
+            else:
+                for p_, (val, decl) in want.items():
+                    c_ = seen.get(p_)
+                    if c_ is None:
+                        problem = f"runs the wrapped function without having checked the guarded parameter `{p_}` ({label} call)"
+                    elif c_[0] is not val or c_[1] != decl or c_[3] != "FUNC":
+                        problem = f"checks parameter `{p_}` with ({c_[0]!r}, {c_[1]!r}, ..., {c_[3]!r}) instead of (its bound value, its declaration, its name, the function's name)"
+                    if problem:
+                        break
+                if not problem and set(seen) - set(want):
+                    problem = f"checks the unguarded parameter(s) {sorted(set(seen) - set(want))}"
+        if problem:
+            run.violate("K1", f"{QD}:validate_input:{label}", m, m.tree, f"validate_input, {label} call: the wrapper {problem}")
+    run.sample({"decorator": QD + ":validate_input", "call_styles": sorted(styles)})
 
 
 def _k2(run: Run, w: World) -> None:
-    run.rule("K2", "validate_output / validate_output_same: every return of the wrapper is dominated by _assert_expected_unit(result, expected)")
-    for path, expected_free in (("validate_output.validate_func.wrapper_validate", "expected_unit"),
-                                ("validate_output_same.validate_func.wrapper_validate", None)):
-        f = Fn(w, QD, path)
-        rets = f.cfg.returns()
-        run.require(bool(rets), f"{path} has no return")
-        checks = f.calls(AEU)
-        for r in rets:
-            run.ob("K2", f"{path}:return")
-            v = r.ast.value
-            if v is None:
-                run.violate("K2", f"{f.qual}:return-none", f.mod, r.ast, "wrapper returns nothing")
-                continue
-            sv = f.slice(r, v)
-            funcalls = [c for c in sv.call_nodes if isinstance(c.func, ast.Name) and c.func.id == "func"]
-            if not funcalls or not all(isinstance(e, (ast.Name, ast.Call)) for e in sv.exprs):
-                run.violate("K2", f"{f.qual}:return-not-result", f.mod, r.ast, f"the wrapper returns {norm(v, 50)}, not the unchanged result of the wrapped function")
-                continue
-            ok = False
-            for n, c in checks:
-                if len(c.args) < 2:
-                    continue
-                s0 = f.slice(n, c.args[0])
-                same_value = any(fc in s0.call_nodes for fc in funcalls) and all(isinstance(e, (ast.Name, ast.Call)) for e in s0.exprs)
-                s1 = f.slice(n, c.args[1])
-                if expected_free is not None:
-                    exp_ok = s1.free == {expected_free} and not s1.params and not s1.calls and not s1.consts
-                else:
-                    exp_ok = {"args", "kwargs"} <= s1.params and "param_name" in f.slice(n, c.args[1], control=True).free
-                if same_value and exp_ok and f.cfg.dominated_by(r, lambda x: x is n):
-                    ok = True
-            if not ok:
-                run.violate("K2", f"{f.qual}:return-unchecked", f.mod, r.ast,
-                            "a return of the wrapper is not dominated by an unconditional _assert_expected_unit(<result>, <expected>) call")
-        run.sample({"function": f.qual, "returns": [f.line(r) for r in rets], "checks": [f.line(c) for _, c in checks]})
+    """validate_output / validate_output_same EVALUATED the same way"""
+    run.rule("K2", "validate_output / validate_output_same: the wrapper returns the unchanged result of the wrapped function, after handing it to _assert_expected_unit with the declared "
+             "dimension (resp. the bound value of the named parameter); validate_output_same refuses a name that is no parameter")
+    m = run.src.need(QD)
+    DA = Dim.of(length=1)
+    va, vb, vc = quantity("va", DA), quantity("vb", Dim.of(time=1)), quantity("vc", Dim.of(mass=1))
+    for label, deco, dargs, args, kwargs, want_expected, result in (("validate_output", "validate_output", [DA], [va, vb, vc], {}, DA, None),
+                                                                    ("validate_output, bare number returned", "validate_output", [DA], [va, vb, vc], {}, DA, 5),
+                                                                    ("validate_output, sequence returned", "validate_output", [DA], [va, vb, vc], {}, DA, [va, 7]),
+                                                                    ("validate_output_same positional", "validate_output_same", ["b"], [va, vb, vc], {}, vb, None),
+                                                                    ("validate_output_same keyword", "validate_output_same", ["b"], [va], {"c": vc, "b": vb}, vb, None)):
+        run.ob("K2", label)
+        R = WrapperReader(m.tree)
+        if result is not None:
+            R.result = result
+        try:
+            wrapper = _wrap(R, deco, dargs, {})
+            got = R.apply_value(wrapper, list(args), ast.parse("0").body[0], {}, dict(kwargs))
+            problem = None
+        except Raised as r:
+            got, problem = None, f"raises {r.exc}"
+        if not problem:
+            calls = [i_ for i_, e in enumerate(R.log) if e[0] == "call"]
+            checks = [(i_, e[1]) for i_, e in enumerate(R.log) if e[0] == "check"]
+            if len(calls) != 1 or R.log[calls[0]][1:] != (list(args), dict(kwargs)):
+                problem = "does not call the wrapped function once with the caller's own (*args, **kwargs)"
+            elif got is not R.result:
+                problem = f"returns {got!r}, not the unchanged result of the wrapped function"
+            elif not any(i_ > calls[0] and len(c_) >= 2 and c_[0] is R.result and (c_[1] is want_expected or c_[1] == want_expected) for i_, c_ in checks):
+                problem = f"returns without having handed the result to _assert_expected_unit together with {want_expected!r} (checks made: {[c_[:2] for _, c_ in checks]!r})"
+        if problem:
+            run.violate("K2", f"{QD}:{deco}:{label}", m, m.tree, f"{label}: the wrapper {problem}")
+    run.ob("K2", "validate_output_same:unknown-parameter")
+    R = WrapperReader(m.tree)
+    try:
+        wrapper = _wrap(R, "validate_output_same", ["nosuch"], {})
+        R.apply_value(wrapper, [va, vb, vc], ast.parse("0").body[0], {}, {})
+        run.violate("K2", f"{QD}:validate_output_same:unknown-parameter", m, m.tree, "validate_output_same('nosuch') does not refuse a name that is no parameter of the function")
+    except Raised:
+        pass
 
 
 def _k3(run: Run, w: World) -> None:
